@@ -1,0 +1,250 @@
+// Copyright 2025 The Go Authors. All rights reserved.
+// Use of this source code is governed by a BSD-style
+// license that can be found in the LICENSE file.
+
+//go:build verif
+
+package html
+
+// Contracts, spec functions and lemma harnesses for the deductive verifier in /verif (govc).
+// This file is compiled only with -tags verif; it adds no behaviour to the package.
+
+// ---------------------------------------------------------------------------
+// Escaping and unescaping (property C40, escape.go).
+
+// isEscByte: the bytes EscapeString replaces (documented: <, >, &, ' and "; the code also
+// replaces carriage return).
+//
+//@ pure
+func isEscByte(c byte) bool {
+	return c == '&' || c == '\'' || c == '<' || c == '>' || c == '"' || c == '\r'
+}
+
+// escEntity: the character reference written for an escaped byte (written from the HTML syntax:
+// named references amp, lt, gt; decimal numeric references 39, 34, 13).
+//
+//@ pure
+func escEntity(c byte) string {
+	if c == '&' {
+		return "&amp;"
+	}
+	if c == '\'' {
+		return "&#39;"
+	}
+	if c == '<' {
+		return "&lt;"
+	}
+	if c == '>' {
+		return "&gt;"
+	}
+	if c == '"' {
+		return "&#34;"
+	}
+	if c == '\r' {
+		return "&#13;"
+	}
+	return ""
+}
+
+// escape(w, s): the output is produced by WriteString calls only, and they tile the input exactly.
+// At every loop head the local s is the not yet written suffix of the input (invariant 1; off =
+// startoff(s)-startoff(input) input bytes are accounted for). Call site 1 writes the bytes
+// input[off:off+i] unchanged, none of which is an escaped byte, and input[off+i] is an escaped byte;
+// then s advances past that byte and call site 2 writes exactly escEntity of it; call site 3 writes
+// the whole remaining suffix, which contains no escaped byte. The default branch (panic) is
+// unreachable. (Positions are stated with startoff rather than with a ghost byte counter: ghost
+// clauses cannot select one of several call sites of the same method.)
+//
+//@ func escape(w, s) (err)
+//@   requires w != nil
+//@   assert at call WriteString#1: samebase($0, old(s)) && startoff($0) == startoff(s) && len($0) == i && 0 <= i && i < len(s)
+//@   assert at call WriteString#1: (forall k int :: 0 <= k && k < len($0) ==> !isEscByte($0[k])) && isEscByte(s[i])
+//@   assert at call WriteString#2: startoff(s) > startoff(old(s)) && isEscByte(old(s)[startoff(s) - startoff(old(s)) - 1])
+//@   assert at call WriteString#2: seqeq($0, escEntity(old(s)[startoff(s) - startoff(old(s)) - 1]))
+//@   assert at call WriteString#3: samebase($0, old(s)) && startoff($0) == startoff(s) && endoff($0) == endoff(old(s))
+//@   assert at call WriteString#3: forall k int :: 0 <= k && k < len($0) ==> !isEscByte($0[k])
+//@   loop 1 invariant samebase(s, old(s)) && endoff(s) == endoff(old(s)) && startoff(s) >= startoff(old(s))
+//@   loop 1 invariant -1 <= i && i < len(s) && (i >= 0 ==> isEscByte(s[i]))
+//@   loop 1 invariant forall k int :: 0 <= k && k < len(s) && (i == -1 || k < i) ==> !isEscByte(s[k])
+
+//@ pure
+func isDigitByte(c byte) bool { return '0' <= c && c <= '9' }
+
+//@ pure
+func isAlnumByte(c byte) bool {
+	return 'a' <= c && c <= 'z' || 'A' <= c && c <= 'Z' || '0' <= c && c <= '9'
+}
+
+//@ pure
+func digitVal(c byte) rune { return rune(c) - '0' }
+
+// numRefRune: the code point a numeric character reference with value x < 128 stands for
+// (HTML: 0 is replaced by U+FFFD; the Windows-1252 range 0x80-0x9F and surrogates are above).
+//
+//@ pure
+func numRefRune(x rune) rune {
+	if x == 0 {
+		return 0xFFFD
+	}
+	return x
+}
+
+// validRune: a Unicode scalar value (what utf8.RuneLen accepts).
+//
+//@ pure
+func validRune(r rune) bool { return 0 <= r && r <= 0x10FFFF && !(0xD800 <= r && r < 0xE000) }
+
+// unescapeEntity(s, attribute): s[0] is '&'. It never reads outside s and consumes between 1 and
+// len(s) bytes. "Not a reference" is reported as ('&', 0, 1). Decimal references with one or two
+// digits (all of &#0; ... &#99;, with or without the semicolon) are decoded exactly: the value is
+// the decimal number, the consumed length includes the optional semicolon. Longer numbers, hex
+// references and named references are covered for safety only (named references go through the
+// entity tables, map literals with 2231 and 92 entries keyed by string that the engine does not
+// model). The last ensures clause - a named reference yields valid runes - is ASSUMED, not proved
+// (partial post:post.7): it is a property of the table data (every value of entity and entity2 is a
+// Unicode scalar value; TestVerifEntityTablesValidRunes checks it exhaustively); all other clauses,
+// including the validity of numeric results, are proved.
+//
+//@ func unescapeEntity(s, attribute) (r1, r2, n)
+//@   requires len(s) >= 1 && s[0] == '&'
+//@   ensures 1 <= n && n <= len(s)
+//@   ensures len(s) == 1 ==> r1 == '&' && r2 == 0 && n == 1
+//@   ensures len(s) >= 2 && s[1] == '#' ==> r2 == 0 && validRune(r1)
+//@   ensures len(s) >= 2 && s[1] == '#' && (len(s) == 2 || (!isDigitByte(s[2]) && s[2] != 'x' && s[2] != 'X')) ==> r1 == '&' && n == 1
+//@   ensures len(s) >= 3 && s[1] == '#' && isDigitByte(s[2]) && (len(s) == 3 || !isDigitByte(s[3])) ==> r1 == numRefRune(digitVal(s[2])) && n == ite(len(s) > 3 && s[3] == ';', 4, 3)
+//@   ensures len(s) >= 4 && s[1] == '#' && isDigitByte(s[2]) && isDigitByte(s[3]) && (len(s) == 4 || !isDigitByte(s[4])) ==> r1 == numRefRune(10*digitVal(s[2]) + digitVal(s[3])) && n == ite(len(s) > 4 && s[4] == ';', 5, 4)
+//@   ensures !(len(s) >= 2 && s[1] == '#') ==> validRune(r1) && (r2 == 0 || validRune(r2))
+//@   partial post:post.7
+//@   loop 1 invariant i0 == ite(hex, 3, 2) && i0 <= i && i <= len(s) && 0 <= x && x <= 0x110000F && len(s) >= 3 && s[1] == '#'
+//@   loop 1 invariant hex <==> (s[2] == 'x' || s[2] == 'X')
+//@   loop 1 invariant !hex ==> (forall k int :: 2 <= k && k < i ==> isDigitByte(s[k]))
+//@   loop 1 invariant i == i0 ==> x == 0
+//@   loop 1 invariant !hex && i == 3 ==> x == digitVal(s[2])
+//@   loop 1 invariant !hex && i == 4 ==> x == 10*digitVal(s[2]) + digitVal(s[3])
+//@   loop 2 invariant 1 <= i && i <= len(s) && len(s) >= 2 && s[1] != '#'
+//@   loop 3 invariant j <= maxLen && maxLen <= len(entityName) - 1 && len(entityName) == i - 1 && i <= len(s)
+
+// EscapeString(s): a string without any escaped byte is returned as it is (the same string); in
+// every other case the result is what escape writes for the whole of s (call-site condition; the
+// contents of the bytes.Buffer in between are not modelled).
+//
+//@ func EscapeString(s) (r)
+//@   ensures (forall k int :: 0 <= k && k < len(s) ==> !isEscByte(s[k])) ==> samebase(r, s) && startoff(r) == startoff(s) && len(r) == len(s)
+//@   assert at call escape: samebase($s, s) && startoff($s) == startoff(s) && len($s) == len(s) && (exists k int :: 0 <= k && k < len(s) && isEscByte(s[k]))
+//@   allocates
+
+// commentEsc(s, k): the byte s[k] of comment data has to be escaped: every '&', and a '>' that is
+// at the start of the data or follows a '!' or a '-' (the states in which '>' would end the comment).
+//
+//@ pure
+func commentEsc(s string, k int) bool {
+	if s[k] == '&' {
+		return true
+	}
+	if s[k] == '>' {
+		return k == 0 || s[k-1] == '!' || s[k-1] == '-'
+	}
+	return false
+}
+
+// escapeComment(w, s): as escape, with commentEsc as the set of escaped positions. At every loop
+// head s[i:j] is scanned and free of positions to escape; call site 1 writes exactly s[i:j] when
+// position j has to be escaped, call site 2 its entity, call site 3 the rest s[i:].
+//
+//@ func escapeComment(w, s) (err)
+//@   requires w != nil
+//@   assert at call WriteString#1: samebase($0, s) && startoff($0) == startoff(s) + i && len($0) == j - i && i < j && commentEsc(s, j)
+//@   assert at call WriteString#2: commentEsc(s, j) && seqeq($0, ite(s[j] == '&', "&amp;", "&gt;"))
+//@   assert at call WriteString#3: samebase($0, s) && startoff($0) == startoff(s) + i && endoff($0) == endoff(s) && i < len(s)
+//@   assert at call WriteString#3: forall k int :: i <= k && k < len(s) ==> !commentEsc(s, k)
+//@   loop 1 invariant 0 <= i && i <= j && j <= len(s) && len(s) > 0
+//@   loop 1 invariant forall k int :: i <= k && k < j ==> !commentEsc(s, k)
+//@
+//@ func escapeCommentString(s) (r)
+//@   ensures (forall k int :: 0 <= k && k < len(s) ==> s[k] != '&' && s[k] != '>') ==> samebase(r, s) && startoff(r) == startoff(s) && len(r) == len(s)
+//@   assert at call escapeComment: samebase($s, s) && startoff($s) == startoff(s) && len($s) == len(s)
+//@   allocates
+
+// unescape(b, attribute), for every b: no panic; a b without '&' is returned as it is, untouched.
+// In-place compaction: while the input array is reused (reusingB) the output is a prefix view of
+// that array and the write position never passes the read position (len(out) <= src); once the
+// output has been cloned it lives in a new array (fresh) and b is not written any more;
+// unescapeEntity is always applied to the rest of the input b[src:] (call-site condition). Per
+// iteration (step clauses, in terms of the byte the iteration reads): at a byte other than '&' that
+// byte is copied and both positions advance by one; "not a reference" copies the '&'; a reference
+// that decodes to a single one-byte rune r1 consumes entityNameLen input bytes and appends exactly
+// byte(r1). These clauses use that unescapeEntity returns valid runes; for named references that
+// is the table assumption stated at unescapeEntity.
+// Tried and left out (solver timeouts on the back edge through Clone/Grow/AppendRune, machine under
+// load 40-70): the quantified invariants "the unread input b[src:] still has its entry contents" and
+// "the bytes before the first '&' are kept", and with them the clause that ties the byte read by an
+// iteration to the ENTRY contents of b. Without them the whole-string round trip cannot be
+// assembled inside the verifier (the text is in /tmp/w2/verif_html.full.go).
+//
+//@ func unescape(b, attribute) (r)
+//@   ensures (forall k int :: 0 <= k && k < len(b) ==> old(b[k]) != '&') ==> samebase(r, b) && startoff(r) == startoff(b) && len(r) == len(b) && (forall k int :: 0 <= k && k < len(b) ==> b[k] == old(b[k]))
+//@   ensures samebase(r, b) ==> len(r) <= len(b)
+//@   assert at call unescapeEntity: samebase($s, b) && startoff($s) == startoff(b) + src && len($s) == len(b) - src
+//@   modifies elems(b)
+//@   allocates
+//@   loop 1 modifies elems(b)
+//@   loop 1 invariant 0 <= firstAmp && firstAmp <= src && src <= len(b) && firstAmp <= len(out) && len(out) <= cap(out)
+//@   loop 1 invariant reusingB ==> samebase(out, b) && startoff(out) == startoff(b) && cap(out) == cap(b) && len(out) <= src
+//@   loop 1 invariant !reusingB ==> fresh(out)
+//@   loop 1 step iterstart(b[src]) != '&' ==> src == iterstart(src) + 1 && len(out) == iterstart(len(out)) + 1 && out[len(out)-1] == iterstart(b[src])
+//@   loop 1 step iterstart(b[src]) == '&' && entityNameLen == 1 && r1 == '&' ==> src == iterstart(src) + 1 && len(out) == iterstart(len(out)) + 1 && out[len(out)-1] == '&'
+//@   loop 1 step iterstart(b[src]) == '&' && !(entityNameLen == 1 && r1 == '&') ==> src == iterstart(src) + entityNameLen && (r2 == 0 && 0 <= r1 && r1 < 0x80 ==> len(out) == iterstart(len(out)) + 1 && out[len(out)-1] == byte(r1))
+
+// Per-character round trip, numeric entities: for the escaped bytes ' " and carriage return, the
+// entity written by escape (escEntity), followed by anything, is decoded by unescapeEntity to that
+// very byte, consuming exactly the entity. With the unescape step clause for a one-byte rune this
+// gives "escape one byte, unescape, get the byte". (& < > are written as the named references
+// &amp; &lt; &gt;, whose decoding goes through the entity table: not proved, see unescapeEntity.)
+//
+//@ lemma
+//@ requires c == '\'' || c == '"' || c == '\r'
+//@ requires len(s) >= 5 && s[0] == escEntity(c)[0] && s[1] == escEntity(c)[1] && s[2] == escEntity(c)[2] && s[3] == escEntity(c)[3] && s[4] == escEntity(c)[4]
+//@ ensures ok
+func lemmaUnescapeEscapedNumeric(c byte, s []byte, attribute bool) (ok bool) {
+	r1, r2, n := unescapeEntity(s, attribute)
+	return r1 == rune(c) && r2 == 0 && n == len(escEntity(c)) && n == 5
+}
+
+// A byte that escape copies unchanged is not '&', so unescape's loop copies it unchanged as well
+// (step clause 1); an escaped byte is never copied. Stated as a lemma over the spec functions.
+//
+//@ lemma
+//@ ensures ok
+func lemmaCopiedByteIsNotAmp(c byte) (ok bool) {
+	return (isEscByte(c) || c != '&') && (!isEscByte(c) || (len(escEntity(c)) >= 4 && escEntity(c)[0] == '&' && escEntity(c)[len(escEntity(c))-1] == ';'))
+}
+
+// UnescapeString(s): a string without '&' is returned as it is; otherwise the result is unescape of
+// a copy of s, not in attribute mode (call-site condition).
+//
+//@ func UnescapeString(s) (r)
+//@   ensures (forall k int :: 0 <= k && k < len(s) ==> s[k] != '&') ==> samebase(r, s) && startoff(r) == startoff(s) && len(r) == len(s)
+//@   assert at call unescape: !$attribute && seqeq($b, s) && (exists k int :: 0 <= k && k < len(s) && s[k] == '&')
+//@   allocates
+//@   loop 1 invariant 0 <= rangepos && rangepos <= len(s)
+
+// Token.String / tagString: no panic for any token; every attribute value is written through
+// escape (into the tag's own buffer), text and doctype data go through EscapeString, comment data
+// through escapeCommentString, nothing else does. (The assembled string itself is not modelled:
+// bytes.Buffer contents and string concatenation are opaque, so "re-tokenizing yields an equal
+// token" is not claimed.)
+//
+//@ func (Token).tagString(t) (r)
+//@   ensures len(t.Attr) == 0 ==> samebase(r, t.Data) && startoff(r) == startoff(t.Data) && len(r) == len(t.Data)
+//@   assert at call escape: exists j int :: 0 <= j && j < len(t.Attr) && samebase($s, t.Attr[j].Val) && startoff($s) == startoff(t.Attr[j].Val) && len($s) == len(t.Attr[j].Val)
+//@   assert at call escape: hastype($w, *bytes.Buffer) && $w.(*bytes.Buffer) == buf
+//@   allocates
+//@   loop 1 invariant -1 <= rangeindex && rangeindex < len(t.Attr) && buf != nil && fresh(buf)
+//@   loop 1 modifies *buf
+//@
+//@ func (Token).String(t) (r)
+//@   assert at call EscapeString: (t.Type == TextToken || t.Type == DoctypeToken) && samebase($s, t.Data) && startoff($s) == startoff(t.Data) && len($s) == len(t.Data)
+//@   assert at call escapeCommentString: t.Type == CommentToken && samebase($s, t.Data) && startoff($s) == startoff(t.Data) && len($s) == len(t.Data)
+//@   assert at call tagString: t.Type == StartTagToken || t.Type == EndTagToken || t.Type == SelfClosingTagToken
+//@   ensures t.Type == ErrorToken ==> len(r) == 0
+//@   allocates
